@@ -37,7 +37,17 @@ func eval(op string, args []string) (ans string, direct []string) {
 			direct = nil
 		}
 	}()
-	return spec.fn(args)
+	retainOp = op + " " + strings.Join(args, " ")
+	if len(retainOp) > 400 {
+		retainOp = retainOp[:400]
+	}
+	ans, direct = spec.fn(args)
+	if msgs := checkRetained(); len(msgs) > 0 && len(msgs) <= 3 {
+		direct = append(direct, msgs...)
+	} else if len(msgs) > 3 {
+		direct = append(direct, msgs[:3]...)
+	}
+	return ans, direct
 }
 
 func (r *Runner) Do(op string, args []string, tag string, nontrivial bool, desc string) {
